@@ -39,7 +39,7 @@ class C10Stream(A.ActorStream):
         # Actor.RESTART_DELAY of the code under test (read at run time)
         delays = [A.actor_delay_us(a) if A.actor_delay_us(a) is not None else obs["delay_us"] for a in case["actors"]]
         if obs["hung"]:
-            V("stop: a stop()/wait()/run() call had not returned 60 s after every actor was stopped")
+            V("stop: a stop()/wait()/run() call had not returned long (40 restart delays) after every actor was stopped")
         # ---- per loop task: restart policy
         loops = {}     # tid -> dict
         cur_lim = {i: _limit(a) for i, a in enumerate(case["actors"])}    # restart limit in force, per actor
@@ -305,8 +305,33 @@ class C10Stream(A.ActorStream):
         return out
 
 
+RESAMPLER_FINDING = "C10-resampling-actor-leaves-resampler-running"
+
+
+class C10ServiceStream(A.ServiceStream):
+    def oracle(self, case, obs):
+        out = []
+        for i, rnd in enumerate(obs["rounds"]):
+            leaked = [t for t in rnd["tasks"] if t[1] and not t[2]]       # SDK coroutine, not done after stop() returned
+            when = "stop()" if case["exit"].startswith("stop") else ("the `async with` block" if case["exit"].startswith("with") else "cancel() + wait()")
+            if leaked:
+                names = sorted({t[0] for t in leaked})
+                finding = None
+                # known: ComponentMetricsResamplingActor deliberately does not stop its Resampler (XXX comment in its
+                # _run), so the receiving task of every subscribed metric outlives stop()
+                if case["service"] == "resampling_actor_sub" and case.get("feed", 0) >= 1 and names == ["_StreamingHelper._receive_samples"]:
+                    finding = RESAMPLER_FINDING
+                out.append({"what": f"stop: after {when} of the {case['service']} service returned (round {i + 1}), {len(leaked)} task(s) it "
+                                    f"spawned are still running: {names} (registered in its task set: {[t[3] for t in leaked]})",
+                            "finding": finding})
+            if rnd["is_running"]:
+                out.append({"what": f"stop: the {case['service']} service still reports is_running after {when} returned (round {i + 1})",
+                            "finding": None})
+        return out
+
+
 def streams():
-    return [C10Stream()]
+    return [C10Stream(), C10ServiceStream()]
 
 
 META = {
